@@ -63,8 +63,8 @@ def _lit(v):
     import casadi as ca
     import numpy as np
     if isinstance(v, ca.MX):
-        if v.is_constant():
-            return ["const", [_num(x) for x in np.array(ca.DM(v)).ravel(order="F")], list(v.shape)]
+        # symbolic attribute (a constant MX when a call was inlined, a call node otherwise):
+        # its VALUE is observed through variable_metadata_function
         return "MX"
     if isinstance(v, ca.DM):
         return ["DM", [_num(x) for x in np.array(v).ravel(order="F")], list(v.shape)]
